@@ -74,8 +74,9 @@ def render(case, seed=0):
         o.append('%sfmt.Printf("X%d\\n")' % (t, i + 1))
         if u["s"] == "go":
             o.append("%sready%d <- 1" % (t, i + 1))
-        if u["s"] == "go" and u["x"] != "ok":
-            # an error / unrecovered panic leaving a program goroutine stops the launching context at an arbitrary point
+        if u["s"] == "go" and (u["x"] != "ok" or any(units[k]["s"] == "defer" and units[k]["x"] != "ok" for k in kids[i])):
+            # an error / unrecovered panic leaving a program goroutine (from its function or a deferred call of it) stops the
+            # launching context at an arbitrary point
             # (GoRoutine sets parentCtx.goErr and running = false): the launchers of the enclosing program goroutines must
             # not wait for a signal that may never be sent
             r = goroot(parent.get(i))
